@@ -174,3 +174,120 @@ func LZ4EncodeRuns(src []byte) []byte {
 	emit(src[litStart:], 0)
 	return out
 }
+
+// SnappyDecodeBlock decodes the Snappy block format (format_description.txt): a little-endian base-128 varint with the
+// uncompressed length, then elements tagged by the low two bits of their first byte: 00 literal (length-1 in the upper
+// six bits, or 60..63 meaning 1..4 following little-endian length bytes), 01 copy with 11-bit offset and length 4..11,
+// 10 copy with 2-byte offset, 11 copy with 4-byte offset (lengths 1..64).
+func SnappyDecodeBlock(src []byte, maxOut int) ([]byte, error) {
+	var n uint64
+	i, shift := 0, uint(0)
+	for {
+		if i >= len(src) || shift > 35 {
+			return nil, errors.New("snappy ref: bad length preamble")
+		}
+		b := src[i]
+		i++
+		n |= uint64(b&0x7f) << shift
+		if b&0x80 == 0 {
+			break
+		}
+		shift += 7
+	}
+	if n > uint64(maxOut) {
+		return nil, errors.New("snappy ref: declared length exceeds bound")
+	}
+	out := make([]byte, 0, n)
+	for i < len(src) {
+		tag := src[i]
+		i++
+		switch tag & 3 {
+		case 0:
+			l := int(tag >> 2)
+			if l >= 60 {
+				nb := l - 59
+				if i+nb > len(src) {
+					return nil, errors.New("snappy ref: truncated literal length")
+				}
+				l = 0
+				for k := 0; k < nb; k++ {
+					l |= int(src[i+k]) << (8 * uint(k))
+				}
+				i += nb
+			}
+			l++
+			if i+l > len(src) {
+				return nil, errors.New("snappy ref: literal overruns input")
+			}
+			out = append(out, src[i:i+l]...)
+			i += l
+		default:
+			var l, off int
+			switch tag & 3 {
+			case 1:
+				if i >= len(src) {
+					return nil, errors.New("snappy ref: truncated copy")
+				}
+				l = 4 + int(tag>>2)&7
+				off = int(tag>>5)<<8 | int(src[i])
+				i++
+			case 2:
+				if i+2 > len(src) {
+					return nil, errors.New("snappy ref: truncated copy")
+				}
+				l = 1 + int(tag>>2)
+				off = int(src[i]) | int(src[i+1])<<8
+				i += 2
+			default:
+				if i+4 > len(src) {
+					return nil, errors.New("snappy ref: truncated copy")
+				}
+				l = 1 + int(tag>>2)
+				off = int(src[i]) | int(src[i+1])<<8 | int(src[i+2])<<16 | int(src[i+3])<<24
+				i += 4
+			}
+			if off == 0 || off > len(out) {
+				return nil, errors.New("snappy ref: invalid copy offset")
+			}
+			start := len(out) - off
+			for k := 0; k < l; k++ {
+				out = append(out, out[start+k])
+			}
+		}
+		if len(out) > maxOut {
+			return nil, errors.New("snappy ref: output exceeds bound")
+		}
+	}
+	if uint64(len(out)) != n {
+		return nil, errors.New("snappy ref: decoded length differs from the preamble")
+	}
+	return out, nil
+}
+
+// SnappyEncodeLiteral produces a valid Snappy block holding src as literals.
+func SnappyEncodeLiteral(src []byte) []byte {
+	var out []byte
+	n := uint64(len(src))
+	for n >= 0x80 {
+		out = append(out, byte(n)|0x80)
+		n >>= 7
+	}
+	out = append(out, byte(n))
+	for len(src) > 0 {
+		l := len(src)
+		if l > 65536 {
+			l = 65536
+		}
+		switch {
+		case l <= 60:
+			out = append(out, byte((l-1)<<2))
+		case l <= 256:
+			out = append(out, 60<<2, byte(l-1))
+		default:
+			out = append(out, 61<<2, byte(l-1), byte((l-1)>>8))
+		}
+		out = append(out, src[:l]...)
+		src = src[l:]
+	}
+	return out
+}
